@@ -344,3 +344,14 @@ pub fn panic_kind(prefix: &str, msg: &str) -> String {
 fn h_line_returned(v: &GoView<'_>) -> bool {
     v.line_returned
 }
+
+/// Does a (shrunk) case still satisfy the assumptions under which the property is stated?
+/// Every property assumes that FEN arguments are valid FEN.
+pub fn input_ok(_prop: &str, plans: &[Plan]) -> bool {
+    plans.iter().all(|p| {
+        p.script.iter().all(|a| match a.line() {
+            Some(l) => c15::fen_rule_ok(l),
+            None => true,
+        })
+    })
+}
